@@ -25,6 +25,7 @@ import (
 	"time"
 
 	"github.com/ErdemOzgen/blackdagger/internal/dag"
+	"github.com/ErdemOzgen/blackdagger/internal/persistence/jsondb"
 	"github.com/ErdemOzgen/blackdagger/internal/sock"
 )
 
@@ -42,6 +43,8 @@ type lcase struct {
 	InjectB string `json:"injectB"`
 	BStepMs      int `json:"bStepMs"`      // > 0: the second process's steps and handler sleep this long instead
 	ThirdAfterMs int `json:"thirdAfterMs"` // > 0: a third `start` (agent C) is launched that long after the second
+	Retention    int `json:"retention"`    // >= 0: `histRetentionDays: N` in the DAG (0 = the loader's default, 30 days); -1: not written
+	BackdateH    int `json:"backdateH"`    // > 0: just before the second command every file under the data dir gets an mtime that many hours in the past
 }
 
 type event struct {
@@ -77,6 +80,10 @@ type result struct {
 	AnsAfterB   bool           `json:"ansAfterB"`   // an endpoint answered after B exited (while A alive)
 	AnsPidAfter int            `json:"ansPidAfter"` // pid reported by that answer
 	AnsT        float64        `json:"ansT"`        // wall-clock time at which that probe was sent
+	HistBeforeB []string       `json:"histBeforeB"` // history files when the second command was launched (after backdating)
+	HistAfterB  []string       `json:"histAfterB"`  // history files right after the second command exited
+	StoreReqs   []string       `json:"storeReqs"`   // request ids the REAL history store lists right after the second command exited
+	StoreByReq  map[string]bool `json:"storeByReq"`  // FindByRequestID of each run present before, asked right after the second command exited
 	AAliveAfter bool           `json:"aAliveAfter"` // A still running when B exited
 	StatusCmd   string         `json:"statusCmd"`   // what `blackdagger status` printed after B exited
 	Sock        string         `json:"sock"`
@@ -283,7 +290,7 @@ var closeRe = regexp.MustCompile(`^close\((\d+)`)
 var lineRe = regexp.MustCompile(`^(\d+)\s+(\d+\.\d+)\s+(.*)$`)
 
 // parseTrace extracts the socket-path system calls of one traced agent (all its threads).
-func parseTrace(path, agent, sockPath string) (evs []event, pid int) {
+func parseTrace(path, agent, sockPath, dataDir string) (evs []event, pid int) {
 	b, _ := os.ReadFile(path)
 	pending := map[string]event{} // tid -> unfinished call
 	lockFd := ""                  // descriptor the lock is held on
@@ -334,6 +341,11 @@ func parseTrace(path, agent, sockPath string) (evs []event, pid int) {
 				e.Te = e.T + durOf(rest)
 				evs = append(evs, e)
 			}
+			continue
+		}
+		if dataDir != "" && strings.HasPrefix(rest, "unlinkat(") && strings.Contains(rest, dataDir) && !strings.Contains(rest, "AT_REMOVEDIR") {
+			// a history file being removed (retention clean-up, or the compaction at the end of a run)
+			evs = append(evs, event{T: t, Te: t + durOf(rest), Ag: agent, Ev: "histunlink", Res: resultOf(rest)})
 			continue
 		}
 		if !strings.Contains(rest, sockPath) {
@@ -446,6 +458,9 @@ exit 0
 `
 	_ = os.WriteFile(filepath.Join(home, "mark.sh"), []byte(script), 0755)
 	var y strings.Builder
+	if c.Retention >= 0 {
+		fmt.Fprintf(&y, "histRetentionDays: %d\n", c.Retention)
+	}
 	y.WriteString("steps:\n")
 	for i := 1; i <= c.NSteps; i++ {
 		last := ""
@@ -554,6 +569,32 @@ exit 0
 			res.AnsBeforeB, _ = probe(sockPath)
 		}
 	}
+	histFiles := func() []string {
+		fs, _ := filepath.Glob(filepath.Join(home, "data", "*", "*.dat"))
+		var out []string
+		for _, f := range fs {
+			out = append(out, filepath.Base(f))
+		}
+		sort.Strings(out)
+		return out
+	}
+	var reqsBefore []string
+	if c.BackdateH > 0 {
+		// the active run's current step "has been quiet" for that long: nothing was written to the history meanwhile
+		old := time.Now().Add(-time.Duration(c.BackdateH) * time.Hour)
+		_ = filepath.Walk(filepath.Join(home, "data"), func(p string, fi os.FileInfo, err error) error {
+			if err == nil && !fi.IsDir() {
+				_ = os.Chtimes(p, old, old)
+			}
+			return nil
+		})
+	}
+	if c.Phase != "together" {
+		res.HistBeforeB = histFiles()
+		for _, h := range readHist(home) {
+			reqsBefore = append(reqsBefore, h.Req)
+		}
+	}
 	var bEnv []string
 	if c.BStepMs > 0 {
 		bEnv = []string{fmt.Sprintf("VERIF_SLP=%d.%03d", c.BStepMs/1000, c.BStepMs%1000)}
@@ -574,6 +615,24 @@ exit 0
 	if !pb.wait(40 * time.Second) {
 		res.Err = "B did not finish"
 		return
+	}
+	if c.Phase != "together" {
+		res.HistAfterB = histFiles()
+		// what the real store (jsondb) says at this moment
+		db := jsondb.New(filepath.Join(home, "data"), true)
+		for _, sf := range db.ReadStatusRecent(dagFile, 20) {
+			if sf != nil && sf.Status != nil {
+				res.StoreReqs = append(res.StoreReqs, sf.Status.RequestID)
+			}
+		}
+		res.StoreByReq = map[string]bool{}
+		for _, q := range reqsBefore {
+			if q == "" {
+				continue
+			}
+			sf, err := db.FindByRequestID(dagFile, q)
+			res.StoreByReq[q] = err == nil && sf != nil
+		}
 	}
 	select {
 	case <-pa.done:
@@ -610,7 +669,7 @@ exit 0
 		all = append(all, np{"C", pc})
 	}
 	for _, x := range all {
-		evs, _ := parseTrace(x.p.trace, x.n, sockPath)
+		evs, _ := parseTrace(x.p.trace, x.n, sockPath, filepath.Join(home, "data")+"/")
 		evs = append(evs, listenEvents(x.p.trace, x.n, sockPath)...)
 		res.Events = append(res.Events, evs...)
 		res.Pid[x.n] = x.p.pid
